@@ -13,7 +13,9 @@ N_QUICK, N_THOROUGH = 400, 6000
 RULE = ("seeded random histories of Recv / Next / Start / Stop / Pause / Resume / Post (0-40 ops, 1-3 "
         "senders, 1-2 targets; 63% default message type, 12% one other type 10/15/19/25 for all messages, "
         "25% mixed types 10/15/19/20/25 and explicit post priorities) on one real MessagePassingComputation hosted on a real (unthreaded) "
-        "Agent + Messaging; 70% of the histories end with Start, Resume and enough Next to drain; "
+        "Agent + Messaging; 70% of the histories end with Start, Resume and enough Next to drain; every 5th "
+        "case is a fault history: the message sender raises on chosen posts (inside a resume flush and "
+        "outside) within pause/post/resume cycles followed by further resumes; "
         "non-trivial = at least one message was buffered on reception or on posting; distinct = distinct "
         "op list")
 MODELLED = ("start/stop/pause/on_message/post_msg and the agent queue are modelled (M_Lifecycle.v); theorems "
@@ -21,7 +23,9 @@ MODELLED = ("start/stop/pause/on_message/post_msg and the agent queue are modell
             "in exactly one of handled/held/queued; when all messages have one type > 19 (the default 20) "
             "and no re-injection happens while re-injected messages still wait, handled++held++queued is "
             "the reception sequence (once, in order, before newer); each excluded case is refuted by a "
-            "witness (two known findings). Real threads are not involved (C18/C21).")
+            "witness (two known findings). The theorems are about failure-free histories; a raising message "
+            "sender is modelled (frun, fail set as input) and covered by oracle + correspondence only. Real "
+            "threads are not involved (C18/C21).")
 META = dict(
     level_text=("Proof (Coq) over all histories of receptions, posts, starts, stops, pauses and resumes of a "
                 "model of MessagePassingComputation composed with the agent's priority queue: messages "
@@ -74,10 +78,45 @@ def gen(rng, n, tier):
                 ops.append(["post", 1 + rng.randrange(ntgt), mid, prio])
             else:
                 ops.append([kind])
-        if rng.random() < 0.7:
+        fail = []
+        if k % 5 == 4:
+            # fault stream: the message sender raises on chosen posts (during a resume flush and
+            # outside), followed by further pause / resume cycles
+            ops = _fault_ops(rng, ops, mid)
+            post_ids = [op[2] for op in ops if op[0] == "post"]
+            fail = sorted(i for i in post_ids if rng.random() < 0.3)
+            if not fail and post_ids:
+                fail = [rng.choice(post_ids)]
+            nposts = len(post_ids)
+            ops += [["start"]] + [["resume"]] * rng.randint(1, nposts + 1) + [["next"]] * 3
+        elif rng.random() < 0.7:
             ops += [["start"], ["resume"]] + [["next"]] * (mid + 2)
-        cases.append(dict(ops=ops))
+        c = dict(ops=ops)
+        if fail:
+            c["fail"] = fail
+        cases.append(c)
     return cases
+
+
+def _fault_ops(rng, ops, mid):
+    """append 1-3 cycles pause; posts; resume(s) to a (shortened) random prefix"""
+    ops = ops[:rng.randint(0, min(len(ops), 12))]
+    nid = max([op[2] for op in ops if op[0] in ("recv", "post")] + [0])
+    for _ in range(rng.randint(1, 3)):
+        ops.append(["pause"])
+        for _ in range(rng.randint(1, 5)):
+            nid += 1
+            if rng.random() < 0.8:
+                ops.append(["post", 1 + rng.randrange(2), nid, None])
+            else:
+                ops.append(["recv", 5, nid, None])
+        if rng.random() < 0.3:
+            ops.append(["next"])
+        ops += [["resume"]] * rng.randint(1, 2)
+        if rng.random() < 0.5:
+            nid += 1
+            ops.append(["post", 1, nid, None])      # a post outside a flush (may fail too)
+    return ops
 
 
 # ------------------------------------------------------------------ implementation driver
@@ -119,17 +158,24 @@ def run_impl(case):
     calls = []
     calls_paused = []        # is_paused at each message_sender call
 
+    from pydcop.infrastructure.communication import UnreachableAgent
+    fail = set(case.get("fail", []))
+
     def recording_post_msg(src, dst, msg, prio=None, on_error=None):
         calls.append([_cid(src), _cid(dst), msg.content, prio])
         calls_paused.append(bool(c.is_paused))
+        if src == "c0" and dst != "c0" and msg.content in fail:
+            raise UnreachableAgent("link down")      # what a failing communication layer does
         return real(src, dst, msg, prio, on_error)
 
     msging.post_msg = recording_post_msg      # add_computation hands this to the computation
     c = Rec("c0")
     a.add_computation(c, publish=False)
     unsafe = False
+    raised = []
     for op in case["ops"]:
         k = op[0]
+        raised.append(False)
         if k == "recv":
             real("s%d" % op[1], "c0", Message("m", op[2]), op[3])
         elif k == "next":
@@ -140,20 +186,26 @@ def run_impl(case):
         elif k in ("start", "resume"):
             if c._paused_messages_recv and any(e[0] <= 19 for e in msging._queue.queue):
                 unsafe = True
-            c.start() if k == "start" else c.pause(False)
+            try:
+                c.start() if k == "start" else c.pause(False)
+            except UnreachableAgent:
+                raised[-1] = True
         elif k == "stop":
             c.stop()
         elif k == "pause":
             c.pause(True)
         elif k == "post":
-            c.post_msg("t%d" % op[1], Message("m", op[2]), op[3])
+            try:
+                c.post_msg("t%d" % op[1], Message("m", op[2]), op[3])
+            except UnreachableAgent:
+                raised[-1] = True
     queue = [[e[0], e[1], _cid(e[3].src_comp), _cid(e[3].dest_comp), e[3].msg.content, e[3].msg_type]
              for e in sorted(msging._queue.queue, key=lambda e: (e[0], e[1]))]
     return dict(handled=[[_cid(s), i] for s, i in c.log], calls=calls, queue=queue,
                 brecv=[[_cid(s), m.content] for s, m, _ in c._paused_messages_recv],
                 bpost=[[_cid(t), m.content, p] for t, m, p, _ in c._paused_messages_post],
                 running=bool(c.is_running), paused=bool(c.is_paused), unsafe=unsafe,
-                handled_flags=c.flags, calls_paused=calls_paused)
+                handled_flags=c.flags, calls_paused=calls_paused, raised=raised)
 
 
 # ------------------------------------------------------------------ oracle (independent of the model)
@@ -171,29 +223,61 @@ def oracle(case, o):
     ops = case["ops"]
     recv = [[op[1], op[2]] for op in ops if op[0] == "recv"]
     posts = [[ME, op[1], op[2], op[3]] for op in ops if op[0] == "post"]
-    # --- posted messages: sent exactly once, in posting order; nothing sent that was not posted
-    sent = [c for c in o["calls"] if c[1] != ME]
-    if sent != posts[:len(sent)]:
-        return "posts: message_sender saw %r, posting order is %r" % (sent[:8], posts[:8])
+    faulty = any(o["raised"])
+    # --- posted messages
+    sent = [c for c in o["calls"] if c[1] != ME]          # handed to message_sender (attempts)
     held_posts = [[ME, t, i, p] for t, i, p in o["bpost"]]
-    if sent + held_posts != posts:
-        return "posts: sent %r + still held %r is not the posted sequence %r" % (sent, held_posts, posts)
-    if not o["paused"] and held_posts:
-        return "posts: %d posted messages still held although the computation is not paused" % len(held_posts)
     for cl, p in zip(o["calls"], o["calls_paused"]):
         if p and cl[0] == ME and cl[1] != ME:
             return "posts: message %r sent while the computation is paused" % cl
+    for m in sent:
+        if m not in posts:
+            return "posts: %r handed to message_sender but never posted" % m
+        if sent.count(m) > posts.count(m):
+            return "posts: message %r handed to message_sender %d times, posted %d time(s)" % (
+                m, sent.count(m), posts.count(m))
+    if sorted(map(repr, sent + held_posts)) != sorted(map(repr, posts)):
+        return "posts: sent %r + still held %r is not the posted multiset %r" % (sent, held_posts, posts)
+    if not faulty:
+        # sent exactly once, in posting order; nothing sent that was not posted
+        if sent != posts[:len(sent)]:
+            return "posts: message_sender saw %r, posting order is %r" % (sent[:8], posts[:8])
+        if sent + held_posts != posts:
+            return "posts: sent %r + still held %r is not the posted sequence %r" % (sent, held_posts, posts)
+        if not o["paused"] and held_posts:
+            return "posts: %d posted messages still held although the computation is not paused" % len(held_posts)
+    else:
+        # with send failures: the messages posted while paused are handed over in posting order
+        # (each at most once, checked above), the ones left by a failed flush on a later resume
+        paused, while_paused = False, []
+        last_resume_failed = False
+        for op, r in zip(ops, o["raised"]):
+            if op[0] == "pause":
+                paused = True
+            elif op[0] == "resume":
+                paused = False
+                last_resume_failed = r
+            elif op[0] == "post" and paused:
+                while_paused.append([ME, op[1], op[2], op[3]])
+        sub = [m for m in sent if m in while_paused]
+        exp = [m for m in while_paused if m in sub]
+        if sub != exp:
+            return "posts: held messages handed over as %r, posting order %r" % (sub, exp)
+        if not o["paused"] and not last_resume_failed and held_posts:
+            return "posts: %d posted messages still held after a resume that did not fail" % len(held_posts)
     # --- received messages: never handled before start / while paused
     for (s, i), (r, p) in zip(o["handled"], o["handled_flags"]):
         if not r or p:
-            return "held: message %r handled while running=%r paused=%r" % ([s, i], r, p)
+            return "held: message %r handed to the handler while running=%r paused=%r" % ([s, i], r, p)
     # --- received messages: exactly once
     pending = o["brecv"] + [[e[2], e[4]] for e in o["queue"]]
     if sorted(o["handled"] + pending) != sorted(recv):
         return "once: handled %r + pending %r is not the received multiset %r" % (o["handled"], pending, recv)
+    if faulty:
+        return None       # a failed resume skips the re-injection: order is only claimed without faults
     if o["running"] and not o["paused"] and o["brecv"]:
         return "once: %d messages still held although the computation runs" % len(o["brecv"])
-    # --- order (same message type): handled in reception order and before newer ones
+    # --- order (one message type): handled in reception order and before newer ones
     if _uniform_type(case) is not None:
         h = o["handled"]
         if h != recv[:len(h)]:
@@ -233,9 +317,10 @@ def coq_case(case, o):
     calls = q.lst(["mkCall %s %s %s %s" % (q.z(s), q.z(d), q.z(i), q.opt(p, q.z)) for s, d, i, p in o["calls"]])
     queue = q.lst(["mkQ %s %s (mkMsg %s %s %s %s)" % tuple(q.z(x) for x in e) for e in o["queue"]])
     bpost = q.lst(["(%s, %s, %s)" % (q.z(t), q.z(i), q.opt(p, q.z)) for t, i, p in o["bpost"]])
-    return "M_Lifecycle.mkLCase %s %s %s %s %s %s %s %s %s %s" % (
+    return "M_Lifecycle.mkLCase %s %s %s %s %s %s %s %s %s %s %s %s" % (
         q.z(ME), q.lst([_op(x) for x in case["ops"]]), zz(o["handled"]), calls, queue,
-        zz(o["brecv"]), bpost, q.b(o["running"]), q.b(o["paused"]), q.b(not o["unsafe"]))
+        zz(o["brecv"]), bpost, q.b(o["running"]), q.b(o["paused"]), q.b(not o["unsafe"]),
+        q.zlist(case.get("fail", [])), q.lst([q.b(x) for x in o["raised"]]))
 
 
 def nontrivial(case, o):
@@ -256,7 +341,7 @@ def _buffered_post(case):
 
 
 def histogram(cases, obs):
-    h = {"default_types": 0, "mixed_types": 0, "uniform_other_type": 0, "unsafe_reinject": 0, "reinjected>=2": 0, "buffered_posts": 0,
+    h = {"fault_stream": 0, "send_raised": 0, "failed_flush_then_resume": 0, "default_types": 0, "mixed_types": 0, "uniform_other_type": 0, "unsafe_reinject": 0, "reinjected>=2": 0, "buffered_posts": 0,
          "len0-5": 0, "len6-20": 0, "len>20": 0}
     for c, o in zip(cases, obs):
         h["default_types" if _is_default(c) else "uniform_other_type" if _uniform_type(c) is not None
@@ -267,6 +352,13 @@ def histogram(cases, obs):
             h["reinjected>=2"] += 1
         if _buffered_post(c):
             h["buffered_posts"] += 1
+        if c.get("fail"):
+            h["fault_stream"] += 1
+            if isinstance(o, dict) and any(o.get("raised", [])):
+                h["send_raised"] += 1
+                rs = [r for op, r in zip(c["ops"], o["raised"]) if op[0] == "resume"]
+                if True in rs and rs.index(True) < len(rs) - 1:
+                    h["failed_flush_then_resume"] += 1
         n = len(c["ops"])
         h["len0-5" if n <= 5 else "len6-20" if n <= 20 else "len>20"] += 1
     return h
@@ -275,4 +367,12 @@ def histogram(cases, obs):
 def shrink_candidates(case):
     ops = case["ops"]
     for i in range(len(ops)):
-        yield dict(ops=ops[:i] + ops[i + 1:])
+        d = dict(ops=ops[:i] + ops[i + 1:])
+        if case.get("fail"):
+            d["fail"] = case["fail"]
+        yield d
+    for f in case.get("fail", []):
+        d = dict(ops=ops, fail=[x for x in case["fail"] if x != f])
+        if not d["fail"]:
+            del d["fail"]
+        yield d
